@@ -378,3 +378,245 @@ Proof.
   destruct Hi as [_ Hn]. rewrite mem_uuid_single in Hn. apply andb_true_iff in Ha. destruct Ha as [Ha _].
   rewrite Ha in Hn. discriminate.
 Qed.
+
+(* ------------------------------------------------------------------------------------------ *)
+(* frames: what the carrier and the responder's add_tracker leave alone *)
+
+(* everything except the carrier's height and memo and the ghost RPC log *)
+Definition core (t : tower) :=
+  (cfg t, gk_users t, gk_height t, db_users t, db_apps t, db_trks t, (r_index t, reorged t, w_cache t, w_height t)).
+
+(* the carrier's memo never holds a `ConfirmedIn` (send_status does not produce one); this is true of
+   every reachable state but is not part of Inv, so it appears as a hypothesis where it matters *)
+Definition memo_ok (m : list (N * cstatus)) : Prop := forall tx s, aget m tx = Some s -> forall h, s <> ConfirmedIn h.
+
+Lemma send_status_not_conf t a h : send_status t a <> ConfirmedIn h.
+Proof.
+  destruct a as [|c]; cbn [send_status]; [discriminate|].
+  destruct (Z.eqb c Consts.RPC_VERIFY_REJECTED); [discriminate|].
+  destruct (Z.eqb c Consts.RPC_VERIFY_ERROR); [discriminate|].
+  destruct (Z.eqb c Consts.RPC_VERIFY_ALREADY_IN_CHAIN); [discriminate|].
+  destruct (Z.eqb c Consts.RPC_DESERIALIZATION_ERROR); discriminate.
+Qed.
+
+Lemma send_spec sc t tx s t' :
+  send_transaction sc t tx = (s, t') ->
+  core t' = core t /\ car_height t' = car_height t /\
+  (memo_ok (car_memo t) -> memo_ok (car_memo t') /\ forall h, s <> ConfirmedIn h).
+Proof.
+  unfold send_transaction. destruct (aget (car_memo t) tx) as [r|] eqn:E; intros H; inversion H; subst; clear H.
+  - repeat split. exact H. intros h. exact (H tx s E h).
+  - repeat split.
+    + intros tx' s' Hg h. cbn [car_memo set_car_memo log_rpc set_rpc_log aget] in Hg.
+      destruct (N.eqb tx' tx); [inversion Hg; apply send_status_not_conf|exact (H tx' s' Hg h)].
+    + intros h. apply send_status_not_conf.
+Qed.
+
+Lemma in_mempool_spec sc t tx b t' :
+  in_mempool sc t tx = (b, t') -> core t' = core t /\ car_height t' = car_height t /\ car_memo t' = car_memo t.
+Proof. unfold in_mempool. intros H. inversion H. repeat split. Qed.
+
+Definition ua (t : tower) := (gk_users t, db_users t, db_apps t).
+
+Lemma core_ua t t' : core t' = core t -> ua t' = ua t.
+Proof. unfold core, ua. intros H. inversion H. reflexivity. Qed.
+
+Lemma add_tracker_ua t uuid d p s : ua (r_add_tracker t uuid d p s) = ua t.
+Proof.
+  unfold r_add_tracker. destruct s; try reflexivity;
+    destruct (find_trk (db_trks t) uuid); try reflexivity; destruct (find_app (db_apps t) uuid); reflexivity.
+Qed.
+
+(* handle_breach: the node is consulted, then at most one tracker row is added *)
+Lemma handle_breach_spec sc t uuid d p s t' :
+  r_handle_breach sc t uuid d p = Ok s t' ->
+  exists t1, core t1 = core t /\ car_height t1 = car_height t /\
+             t' = (if status_accepted s then r_add_tracker t1 uuid d p s else t1) /\
+             (memo_ok (car_memo t) ->
+              memo_ok (car_memo t1) /\ forall h, s = ConfirmedIn h -> ti_get (r_index t) p <> None).
+Proof.
+  unfold r_handle_breach. destruct (ti_get (r_index t) p) as [bh|] eqn:Ei.
+  - destruct (ti_get_height (r_index t) bh) as [hh|]; cbn [bind]; intros H; inversion H; subst; clear H.
+    exists t. repeat split. exact H. intros; discriminate.
+  - destruct (in_mempool sc t p) as [inm t1] eqn:Em. apply in_mempool_spec in Em. destruct Em as [Hc1 [Hh1 Hm1]].
+    destruct inm.
+    + cbn [bind]. intros H; inversion H; subst; clear H. exists t1. repeat split; try assumption.
+      * rewrite Hm1. exact H.
+      * intros h Hx. discriminate.
+    + destruct (send_transaction sc t1 p) as [s2 t2] eqn:Es. apply send_spec in Es. destruct Es as [Hc2 [Hh2 Hm2]].
+      cbn [bind]. intros H; inversion H; subst; clear H. exists t2. repeat split.
+      * congruence.
+      * congruence.
+      * rewrite <- Hm1 in H. apply Hm2 in H. tauto.
+      * intros h Hx. rewrite <- Hm1 in H. apply Hm2 in H. destruct H as [_ H]. exfalso. exact (H h Hx).
+Qed.
+
+Lemma handle_breach_ua sc t uuid d p s t' : r_handle_breach sc t uuid d p = Ok s t' -> ua t' = ua t.
+Proof.
+  intros H. apply handle_breach_spec in H. destruct H as [t1 [Hc [_ [Ht _]]]]. subst t'.
+  destruct (status_accepted s); [rewrite add_tracker_ua|]; apply core_ua; exact Hc.
+Qed.
+
+(* ------------------------------------------------------------------------------------------ *)
+(* 2. add_appointment *)
+
+Lemma store_spec t a t2 :
+  w_store_appointment t a = Ok tt t2 ->
+  db_apps t2 = stored (db_apps t) a /\ db_users t2 = db_users t /\ gk_users t2 = gk_users t /\ db_trks t2 = db_trks t /\ cfg t2 = cfg t.
+Proof.
+  unfold w_store_appointment, stored. destruct (find_app (db_apps t) (app_uuid a)) as [a0|].
+  - intros H; inversion H; subst. repeat split.
+  - destruct (amem (db_users t) (a_user a)); intros H; inversion H; subst. repeat split.
+Qed.
+
+Lemma triggered_spec sc t a d t2 :
+  w_store_triggered sc t a d = Ok tt t2 ->
+  db_users t2 = db_users t /\ gk_users t2 = gk_users t /\
+  (db_apps t2 = stored (db_apps t) a \/ db_apps t2 = del [app_uuid a] (db_apps t)).
+Proof.
+  unfold w_store_triggered. destruct (decrypt (a_blob a) d) as [p|].
+  - destruct (w_store_appointment t a) as [[] t1|] eqn:E1; cbn [bind]; [|discriminate].
+    apply store_spec in E1. destruct E1 as [Ha1 [Hu1 [Hg1 _]]].
+    destruct (r_handle_breach sc t1 (app_uuid a) d p) as [s t3|] eqn:E2; cbn [bind]; [|discriminate].
+    apply handle_breach_ua in E2. unfold ua in E2. inversion E2 as [[Hg3 Hu3 Ha3]].
+    destruct (status_rejected s).
+    + unfold gk_delete_appointments. intros H; inversion H; subst; clear H.
+      rewrite db_delete_apps_users, db_delete_apps_mem, db_delete_apps_apps.
+      repeat split; try congruence. right. rewrite Ha3, Ha1. apply del_stored.
+    + intros H; inversion H; subst; clear H. repeat split; try congruence. left. congruence.
+  - destruct (find_app (db_apps t) (app_uuid a)) as [a0|] eqn:Ef.
+    + unfold gk_delete_appointments. intros H; inversion H; subst; clear H. repeat split. right. reflexivity.
+    + intros H; inversion H; subst; clear H. repeat split. right. symmetry. apply del_notin.
+      apply find_app_None. exact Ef.
+Qed.
+
+Definition used_by (t : tower) (loc u : N) : N :=
+  match find_app (db_apps t) (loc, u) with Some a0 => aslots a0 | None => 0 end.
+
+Lemma add_ok_shape le t signer loc b delay sig sc t' st sg sl e :
+  Inv t -> step le t (OAdd signer loc b delay sig) sc = (t', OAddRes (AddOk st sg sl e)) ->
+  exists u ui, signer = Some u /\ aget (db_users t) u = Some ui /\
+    slots_of (b_len b) <= u_slots ui + used_by t loc u /\
+    sl = (u_slots ui + used_by t loc u - slots_of (b_len b)) mod U32MOD /\
+    db_users t' = map (fun r => if N.eqb (fst r) u then (u, mk_uinfo sl (u_start ui) (u_expiry ui)) else r) (db_users t) /\
+    (db_apps t' = stored (db_apps t) (mk_app loc u b delay sig (w_height t)) \/ db_apps t' = del [(loc, u)] (db_apps t)).
+Proof.
+  intros HI. cbn [step wrap]. unfold w_add_appointment. change (set_rpc_log t []) with (fresh t).
+  destruct (authenticate (fresh t) signer) as [u|] eqn:Ea; [|cbn; intros H; inversion H].
+  apply authenticate_Some in Ea. destruct Ea as [Hs _].
+  destruct (gk_get (fresh t) u) as [ui|] eqn:Eg; [|cbn; intros H; inversion H].
+  destruct (N.leb (u_expiry ui) (gk_height (fresh t))); [cbn; intros H; inversion H|].
+  destruct (find_trk (db_trks (fresh t)) (loc, u)); [cbn; intros H; inversion H|].
+  unfold gk_add_update_appointment. rewrite Eg.
+  assert (Eu : aget (db_users t) u = Some ui).
+  { rewrite <- (inv_sync t HI u). exact Eg. }
+  change (db_apps (fresh t)) with (db_apps t). fold (used_by t loc u). unfold aslots.
+  change (match find_app (db_apps t) (loc, u) with Some a => slots_of (b_len (a_blob a)) | None => 0 end) with (used_by t loc u).
+  destruct (N.leb (slots_of (b_len b)) (u_slots ui + used_by t loc u)) eqn:El; cbn [bind]; [|cbn; intros H; inversion H].
+  apply N.leb_le in El.
+  set (s := (u_slots ui + used_by t loc u - slots_of (b_len b)) mod U32MOD).
+  set (t1 := p_set_user (fresh t) u (mk_uinfo s (u_start ui) (u_expiry ui))).
+  set (a := mk_app loc u b delay sig (w_height (fresh t))).
+  assert (Hu1 : db_users t1 = map (fun r => if N.eqb (fst r) u then (u, mk_uinfo s (u_start ui) (u_expiry ui)) else r) (db_users t)) by reflexivity.
+  assert (Ha1 : db_apps t1 = db_apps t) by reflexivity.
+  intros H. exists u, ui.
+  destruct (ti_get (w_cache t1) loc) as [d|].
+  - destruct (w_store_triggered sc t1 a d) as [[] t2|] eqn:E2; cbn [bind wrap] in H; inversion H; subst; clear H.
+    apply triggered_spec in E2. destruct E2 as [Hu2 [_ Ha2]].
+    split; [first [exact Hs|reflexivity]|]. split; [exact Eu|]. split; [exact El|]. split; [reflexivity|].
+    split; [rewrite Hu2; exact Hu1|]. rewrite Ha1 in Ha2. exact Ha2.
+  - destruct (w_store_appointment t1 a) as [[] t2|] eqn:E2; cbn [bind wrap] in H; inversion H; subst; clear H.
+    apply store_spec in E2. destruct E2 as [Ha2 [Hu2 _]].
+    split; [first [exact Hs|reflexivity]|]. split; [exact Eu|]. split; [exact El|]. split; [reflexivity|].
+    split; [rewrite Hu2; exact Hu1|]. left. rewrite Ha1 in Ha2. exact Ha2.
+Qed.
+
+Lemma add_refused_same le t signer loc b delay sig sc t' r :
+  step le t (OAdd signer loc b delay sig) sc = (t', OAddRes r) ->
+  match r with AddOk _ _ _ _ => True | _ => same_ledger t t' end.
+Proof.
+  cbn [step wrap]. unfold w_add_appointment. change (set_rpc_log t []) with (fresh t).
+  destruct (authenticate (fresh t) signer) as [u|]; [|cbn; intros H; inversion H; apply same_ledger_fresh].
+  destruct (gk_get (fresh t) u) as [ui|] eqn:Eg; [|cbn; intros H; inversion H].
+  destruct (N.leb (u_expiry ui) (gk_height (fresh t))); [cbn; intros H; inversion H; apply same_ledger_fresh|].
+  destruct (find_trk (db_trks (fresh t)) (loc, u)); [cbn; intros H; inversion H; apply same_ledger_fresh|].
+  unfold gk_add_update_appointment. rewrite Eg.
+  match goal with |- context [if ?c then _ else _] => destruct c end; cbn [bind]; [|cbn; intros H; inversion H; apply same_ledger_fresh].
+  match goal with |- context [bind ?x _] => destruct x as [[] t2|] end; cbn [bind wrap]; intros H; inversion H; exact I.
+Qed.
+
+Lemma used_le_held t loc u : Inv t -> used_by t loc u <= held_t t u.
+Proof.
+  intros HI. unfold used_by, held_t. rewrite (ssum_del1 (ofu u) (loc, u) _ (inv_apps_nodup t HI)).
+  destruct (find_app (db_apps t) (loc, u)) as [a0|] eqn:E; [|lia].
+  apply find_app_Some in E. destruct E as [_ E]. apply app_uuid_user in E.
+  assert (Ho : ofu u a0 = true) by (apply ofu_true; exact E). rewrite Ho. lia.
+Qed.
+
+Theorem add_bal le t signer loc b delay sig sc t' r :
+  Inv t -> step le t (OAdd signer loc b delay sig) sc = (t', OAddRes r) ->
+  match r with
+  | AddOk start sg slots e =>
+      exists u, signer = Some u /\
+        (* wire = disk; accepted only if the balance stays non-negative *)
+        slots = avail t' u /\
+        slots_of (b_len b) <= avail t u + used_by t loc u /\
+        (* no `as u32` wrap: the charge is the difference, and the balance is conserved or forfeited *)
+        (bal t u < U32MOD ->
+           avail t' u + slots_of (b_len b) = avail t u + used_by t loc u /\
+           (if held_version (db_apps t') loc u b then bal t' u = bal t u
+            else bal t' u + slots_of (b_len b) = bal t u)) /\
+        (forall v, v <> u -> aget (db_users t') v = aget (db_users t) v /\
+                             filter (ofu v) (db_apps t') = filter (ofu v) (db_apps t) /\ bal t' v = bal t v)
+  | _ => same_ledger t t'
+  end.
+Proof.
+  intros HI Hstep. destruct r as [st sg sl e| | |]; try exact (add_refused_same le t signer loc b delay sig sc t' _ Hstep).
+  destruct (add_ok_shape le t signer loc b delay sig sc t' st sg sl e HI Hstep) as [u [ui [Hs [Eu [Hle [Hsl [Hu' Ha']]]]]]].
+  exists u. split; [exact Hs|].
+  assert (Hav : avail t u = u_slots ui) by (unfold avail; rewrite Eu; reflexivity).
+  assert (Hav' : avail t' u = sl).
+  { unfold avail. rewrite Hu', aget_map_update, N.eqb_refl, Eu. reflexivity. }
+  pose proof (used_le_held t loc u HI) as Hused.
+  split; [congruence|]. split; [rewrite Hav; exact Hle|]. split.
+  - intros Hnw. unfold bal in Hnw.
+    assert (Hsl' : sl = u_slots ui + used_by t loc u - slots_of (b_len b)).
+    { rewrite Hsl. apply N.mod_small. lia. }
+    split; [lia|].
+    set (a := mk_app loc u b delay sig (w_height t)) in *.
+    destruct Ha' as [Ha'|Ha'].
+    + assert (Hhv : held_version (stored (db_apps t) a) loc u b = true) by exact (held_version_stored (db_apps t) a).
+      rewrite Ha', Hhv. unfold bal, held_t. rewrite Ha', Hav', Hav.
+      unfold stored. change (app_uuid a) with (loc, u). unfold used_by in *.
+      destruct (find_app (db_apps t) (loc, u)) as [a0|] eqn:Ef.
+      * pose proof (ssum_repl (ofu u) a a0 (db_apps t) (inv_apps_nodup t HI) Ef) as Hr.
+        assert (Ho0 : ofu u a0 = true) by (apply ofu_true; apply find_app_Some in Ef; destruct Ef as [_ Ef]; apply app_uuid_user in Ef; exact Ef).
+        assert (Ho : ofu u a = true) by (apply ofu_true; reflexivity).
+        rewrite Ho0, Ho in Hr. change (aslots a) with (slots_of (b_len b)) in Hr. lia.
+      * rewrite filter_app, ssum_app. cbn [filter].
+        assert (Ho : ofu u a = true) by (apply ofu_true; reflexivity). rewrite Ho.
+        rewrite ssum_cons. change (aslots a) with (slots_of (b_len b)). cbn [ssum fold_right]. lia.
+    + rewrite Ha', held_version_del. unfold bal, held_t. rewrite Ha', Hav', Hav.
+      pose proof (ssum_del1 (ofu u) (loc, u) _ (inv_apps_nodup t HI)) as Hd.
+      unfold used_by in *. destruct (find_app (db_apps t) (loc, u)) as [a0|] eqn:Ef.
+      * assert (Ho0 : ofu u a0 = true) by (apply ofu_true; apply find_app_Some in Ef; destruct Ef as [_ Ef]; apply app_uuid_user in Ef; exact Ef).
+        rewrite Ho0 in Hd. lia.
+      * lia.
+  - intros v Hv.
+    assert (Hrow : aget (db_users t') v = aget (db_users t) v).
+    { rewrite Hu', aget_map_update. apply N.eqb_neq in Hv. rewrite Hv. reflexivity. }
+    assert (Hf : filter (ofu v) (db_apps t') = filter (ofu v) (db_apps t)).
+    { destruct Ha' as [Ha'|Ha']; rewrite Ha'; [apply filter_ofu_stored; cbn [a_user]; congruence|apply filter_ofu_del1; congruence]. }
+    repeat split; [exact Hrow|exact Hf|]. unfold bal, held_t, avail. rewrite Hrow, Hf. reflexivity.
+Qed.
+
+(* replacing an appointment charges or returns only the difference *)
+Theorem replace_charges_difference le t u loc b delay sig sc t' start sg slots e a0 :
+  Inv t -> step le t (OAdd (Some u) loc b delay sig) sc = (t', OAddRes (AddOk start sg slots e)) ->
+  find_app (db_apps t) (loc, u) = Some a0 -> bal t u < U32MOD ->
+  avail t' u + slots_of (b_len b) = avail t u + slots_of (b_len (a_blob a0)).
+Proof.
+  intros HI Hstep Hf Hnw. pose proof (add_bal le t (Some u) loc b delay sig sc t' _ HI Hstep) as H.
+  cbn beta iota in H. destruct H as [u' [Hs [_ [_ [H _]]]]]. inversion Hs; subst u'.
+  destruct (H Hnw) as [H1 _]. unfold used_by in H1. rewrite Hf in H1. exact H1.
+Qed.
